@@ -310,6 +310,9 @@ func vfC12Reassembly(t *testing.T, res *vfResult) {
 	run := func(j job) {
 		dev, class := vfReasmRun(j.records, j.totals)
 		res.Eval(1)
+		if res.Evaluations%4001 == 7 {
+			res.Sample(map[string]any{"arrival": vfArrivalString(j.records), "class": vfArrivalClass(j.records), "deviation": dev})
+		}
 		res.NonTrivial(vfArrivalString(j.records))
 		if dev != "" {
 			res.Count("reassembly_deviations", 1)
